@@ -62,7 +62,22 @@ func runC02(r *harness.Run) {
 		"every select(n, ...) and unpack(t, i, j) over small ranges and multi-result counts around the SETLIST flush boundary (F-select); tail-recursive loops for each callee kind with white-box stack snapshots per iteration (F-tail); " +
 		"each program runs on gopher-lua and the reference interpreter and traces are compared; non-trivial = distinct program text with a non-empty reference trace"
 	r.Assumptions = []string{"luaref is the executable reading of Lua 5.1 call/return adjustment", "tail calls: equality of (call depth, registry top) between consecutive iterations is taken as proof that no iteration count exhausts the stack; additionally 10^6 iterations run under CallStackSize 8"}
-	pr.runGens(gens, []string{"F-select", "F-tail", "F-call"})
+	order := []string{"F-select", "F-tail", "F-call"}
+	// "nested arbitrarily": the same families below 30 (thorough: also 110) vararg frames of
+	// different sizes, so that every call shape also runs far from the base of the value stack, in
+	// a frame whose caller holds varargs, and (110) beyond the first growth of the call stack
+	depths := []int{30}
+	if th {
+		depths = append(depths, 110)
+	}
+	for _, d := range depths {
+		pre := fmt.Sprintf("D%d/", d)
+		for _, n := range []string{"F-select", "F-call"} {
+			gens[pre+n] = mapGen(gens[n], pre, deepFrame(d))
+			order = append(order, pre+n)
+		}
+	}
+	pr.runGens(gens, order)
 	c02LongTail(r)
 }
 
